@@ -100,7 +100,25 @@ class MiniEval:
                 continue
             if isinstance(st, ast.AugAssign) and isinstance(st.target, ast.Name):
                 cur = self.name(st.target.id, env)
-                env[st.target.id] = self.binop(st.op, cur, self.ev(st.value, env))
+                val = self.ev(st.value, env)
+                # augmented assignment on Python's mutable containers works IN PLACE (aliases see the change)
+                if isinstance(cur, dict) and isinstance(val, dict) and isinstance(st.op, ast.BitOr):
+                    cur.update(val)
+                    continue
+                if isinstance(cur, set) and isinstance(val, (set, frozenset)) and isinstance(st.op, (ast.BitOr, ast.BitAnd, ast.Sub, ast.BitXor)):
+                    if isinstance(st.op, ast.BitOr):
+                        cur.update(val)
+                    elif isinstance(st.op, ast.BitAnd):
+                        cur.intersection_update(val)
+                    elif isinstance(st.op, ast.Sub):
+                        cur.difference_update(val)
+                    else:
+                        cur.symmetric_difference_update(val)
+                    continue
+                if isinstance(cur, list) and isinstance(val, (list, tuple)) and isinstance(st.op, ast.Add):
+                    cur.extend(val)
+                    continue
+                env[st.target.id] = self.binop(st.op, cur, val)
                 continue
             if isinstance(st, ast.Assert):
                 continue
